@@ -42,7 +42,9 @@ TFrame ==
        THEN \E i \in OfId(w, Ev.id) : Frame_G(w, c, Ev.m, Ev.id, i, 0) /\ w' = Frame_F(w, Ev.m, Ev.id, i, 0)
        ELSE Frame_G(w, c, Ev.m, Ev.id, Ev.i, Ev.k) /\ w' = Frame_F(w, Ev.m, Ev.id, Ev.i, Ev.k)
   /\ UNCHANGED c
-TCEnd     == IsEvent("CEnd") /\ w' = CEnd_F(w) /\ UNCHANGED c
+\* the end as the client sees it (k = close code).  4409 "subscriber already exists" is only justified
+\* if the client did send a start for an id whose operation it had not seen terminated
+TCEnd     == IsEvent("CEnd") /\ (Ev.k = 4409 => w.dupsent) /\ w' = CEnd_F(w) /\ UNCHANGED c
 TInitFn   == IsEvent("InitFn") /\ InitFn_G(w, c, Ev.m) /\ w' = InitFn_F(w, Ev.m) /\ UNCHANGED c
 TCloseFn  == IsEvent("CloseFn") /\ CloseFn_G(w, c) /\ w' = CloseFn_F(w) /\ UNCHANGED c
 TErrFn    == IsEvent("ErrFn") /\ UNCHANGED <<w, c>>          \* ErrorFunc is not constrained by the statement
